@@ -7,7 +7,7 @@
 (* sequence of tokens [c, n]: class and length in characters                *)
 (*    "t"  plain text (n characters, also part of the plain text)           *)
 (*    "w"  inserted whitespace / line break (source only, not a tag)        *)
-(*    "oX" / "cX"  opening / closing tag X in {i, b, p}                     *)
+(*    "oX" / "cX"  opening / closing tag X in {i, b, p, d = div}            *)
 (*    "sc" a self-closing element (<br/>): a tag, balanced on its own       *)
 (*    "d"  plain text the source LACKS (n characters of the plain text,     *)
 (*         none of the target: a deletion of the diff)                      *)
@@ -36,12 +36,14 @@ VARIABLES src,      \* target text as token sequence
           pc, k, lastEnd, out, err
 vars == <<src, hasSrc, mode, anns, pc, k, lastEnd, out, err>>
 
-TagLen(c) == CASE c \in {"oi", "ob", "op"} -> 3 [] c \in {"ci", "cb", "cp"} -> 4 [] c = "sc" -> 5 [] OTHER -> 0
-IsTag(c) == c \in {"oi", "ob", "op", "oa", "ci", "cb", "cp", "ca", "sc"}
-IsOpen(c)  == c \in {"oi", "ob", "op", "oa"}
-IsClose(c) == c \in {"ci", "cb", "cp", "ca"}
+TagLen(c) == CASE c \in {"oi", "ob", "op"} -> 3 [] c \in {"ci", "cb", "cp"} -> 4 [] c = "sc" -> 5
+               [] c = "od" -> 5 [] c = "cd" -> 6 [] OTHER -> 0
+IsTag(c) == c \in {"oi", "ob", "op", "oa", "od", "ci", "cb", "cp", "ca", "cd", "sc"}
+IsOpen(c)  == c \in {"oi", "ob", "op", "oa", "od"}
+IsClose(c) == c \in {"ci", "cb", "cp", "ca", "cd"}
+(* "od" / "cd": <div> / </div> -- the element name the balance test itself wraps a span in *)
 TagName(c) == CASE c \in {"oi", "ci"} -> "i" [] c \in {"ob", "cb"} -> "b"
-                [] c \in {"op", "cp"} -> "p" [] c \in {"oa", "ca"} -> "a" [] OTHER -> ""
+                [] c \in {"op", "cp"} -> "p" [] c \in {"oa", "ca"} -> "a" [] c \in {"od", "cd"} -> "div" [] OTHER -> ""
 
 SrcIgnored == ~EmptySourceFix /\ hasSrc /\ \A j \in DOMAIN src : src[j].c = "d"    \* original code, source_text = ""
 UseSrc == hasSrc /\ ~SrcIgnored
